@@ -34,6 +34,13 @@ def gen_cases(chk):
         "ts quantization_intervals=32 1 0,0,0,0,64 0 %s %s TT 5 5 1 %s 1" % (dbits(0.5), dbits(1e-3), dbits(15.5)),
         "ts - 1 0,0,0,0,3e8 2 %s %s PTSPTSPSS 0 3 c10f %s 2" % (dbits(0.01), dbits(0.01), one),               # double temporal kernel without re-check
     ]
+    # bounds of a few ulps of the values: the machine-epsilon re-check of the kernels rejects codes, on snapshot and temporal steps
+    for ty, bounds in ((0, (2.3e-4, 4.1e-4, 1e-4)), (1, (4.3e-13, 2.0e-13))):
+        for t in ((40,), (64,), (1000,), (30, 40)):
+            dims = ",".join("%x" % v for v in [0] * (5 - len(t)) + list(t))
+            for b in bounds:
+                cases.append("ts %s %x %s 0 %s %s %s 8 %d %x %s 1" % (rng.choice(("-", "snapshotCmprStep=6", "quantization_intervals=256")), ty, dims, dbits(b), dbits(1e-3),
+                                                                    rng.choice(("STTTTTT", "PPPPPPPPPPPP", "STTSTTTT")), rng.choice((0, 2)), rng.getrandbits(16), one))
     n = 260 if thorough else 70
     for i in range(n):
         small = i % 2 == 0
@@ -46,7 +53,7 @@ def gen_cases(chk):
         rel = rng.choice((1e-2, 1e-4))
         ns = rng.randint(1, 50 if thorough and not small else 10)
         sched = "".join(rng.choice("STTPPP") for _ in range(ns))
-        evo = rng.choice((0, 1, 2, 3, 4, 5, 6, 7))
+        evo = rng.choice((0, 1, 2, 3, 4, 5, 6, 7, 8))
         kind = rng.choice((0, 1, 2, 3, 4))
         cases.append("ts %s %x %s %x %s %s %s %d %d %x %s %d" % (rng.choice(CFGS), ty, dims, mode, dbits(absb), dbits(rel), sched, evo, kind,
                                                                    rng.getrandbits(16), dbits(scale), rng.choice((1, 1, 2, 3))))
